@@ -304,6 +304,8 @@ func prefixType(w int) serix.LengthPrefixType {
 		return serix.LengthPrefixTypeAsByte
 	case 2:
 		return serix.LengthPrefixTypeAsUint16
+	case 8:
+		return serix.LengthPrefixTypeAsUint64
 	default:
 		return serix.LengthPrefixTypeAsUint32
 	}
@@ -315,6 +317,8 @@ func prefixTag(w int) string {
 		return "uint8"
 	case 2:
 		return "uint16"
+	case 8:
+		return "uint64"
 	}
 
 	return "uint32"
@@ -363,7 +367,7 @@ func (s Settings) toTypeSettings(code *Code) serix.TypeSettings {
 
 // drawCollSettings draws length-prefix / bounds / rule settings for a collection.
 func drawCollSettings(t *rapid.T, label string, rules bool, maxElems int) Settings {
-	s := Settings{Prefix: rapid.SampledFrom([]int{1, 1, 2, 4}).Draw(t, label+".prefix")}
+	s := Settings{Prefix: rapid.SampledFrom([]int{1, 1, 2, 4, 8}).Draw(t, label+".prefix")}
 	switch rapid.IntRange(0, 4).Draw(t, label+".bounds") {
 	case 0:
 		s.Min = rapid.IntRange(1, 2).Draw(t, label+".min")
@@ -392,7 +396,7 @@ func drawCollSettings(t *rapid.T, label string, rules bool, maxElems int) Settin
 }
 
 func drawStrSettings(t *rapid.T, label string) Settings {
-	s := Settings{Prefix: rapid.SampledFrom([]int{1, 1, 2, 4}).Draw(t, label+".prefix")}
+	s := Settings{Prefix: rapid.SampledFrom([]int{1, 1, 2, 4, 8}).Draw(t, label+".prefix")}
 	switch rapid.IntRange(0, 4).Draw(t, label+".bounds") {
 	case 0:
 		s.Min = rapid.IntRange(1, 3).Draw(t, label+".min")
@@ -946,7 +950,7 @@ func (c *Case) genStruct(t *rapid.T, depth int, label string) *Node {
 				f.N = c.nStr(NStrB(""), "NStrB")
 			}
 			if rapid.IntRange(0, 3).Draw(t, fl+".override") == 0 {
-				f.N.S.Prefix = rapid.SampledFrom([]int{1, 2, 4}).Draw(t, fl+".ovprefix")
+				f.N.S.Prefix = rapid.SampledFrom([]int{1, 2, 4, 8}).Draw(t, fl+".ovprefix")
 				tagParts = append(tagParts, "lenPrefix="+prefixTag(f.N.S.Prefix))
 			}
 		case 6, 7:
